@@ -3,6 +3,7 @@
 use std::path::Path;
 
 pub mod optable;
+pub mod layout_tables;
 pub mod generation;
 pub mod cloner;
 pub mod instr;
@@ -12,6 +13,7 @@ pub mod span;
 pub mod prec;
 pub mod glu_std;
 pub mod primtable;
+pub mod stackreset;
 
 pub struct GenError {
     pub item: String,
